@@ -184,6 +184,9 @@ STRUCT = {
     "c01": ("struct_init_block / struct_init_block_inner: which members are rendered, skipped, and how the body is delimited",
             "From: every own field receives exactly its designated counterpart value; Into / into_existing: exactly the designated counterpart fields are written, each once, ghosts skipped, bare parents poured once, struct-level ghosts added",
             "all member sequences of length 1..3 over 10 member forms (plain, renamed, expression, both, from/into pair, ghost, child, nested child + rename, `@`/`~` expressions, bare parent) x with / without struct-level ghosts: 2,220 structs x 6 impls, against an oracle written from the statement; plus all 256 tuple structs of 4 members over {plain, expression, ghost, bare parent} x {B, B as ()}: Into writes position k for the k-th rendered member, in the literal and in the `obj.k = ..` form"),
+    "c02": ("render_enum_line -> struct_init_block (payload constructor, an assumed callee) -> render_struct_line, enum_init_block(_inner), variant_destruct_block end to end",
+            "every arm matches the (renamed) variant with the pattern that binds exactly the fields the other side has, and builds the variant with exactly the designated payload: same-named / renamed / expression / ghost default, running positions for tuple payloads",
+            "enums with a named-payload, a tuple-payload and a unit variant; named payloads: all sequences of length 1..3 over 6 member forms; tuple payloads: sequences over 4 forms; with and without variant renames: 492 enums x 4 impls, whole fn bodies compared with an oracle written from the statement"),
     "c04": ("validate_struct_attrs (uniqueness per kind / fallibility / counterpart), get_data_type_attrs, data_type_impl end to end",
             "accepted input => the impl headers are exactly the documented ones for its instructions, pairwise distinct (a (kind, fallibility, counterpart) requested twice must not be accepted), `type Error` is the declared error type, and the set does not depend on the order of the instructions",
             "24 instructions x 4 counterpart forms x 2 error types x 3 item shapes singly; all 24 x 24 ordered pairs x {same counterpart, different counterparts, different generic arguments} x both orders: 18,156 inputs against the README table re-typed in the test"),
@@ -321,6 +324,9 @@ def _run(prop, tier):
     if prop == "C03":
         v, rep = structural("c03", prop)
         return {"violations": v, "report": {"nesting_trees": rep}}
+    if prop == "C02":
+        v, rep = structural("c02", prop)
+        return {"violations": v, "report": {"enum_arms_and_payloads": rep}}
     if prop == "C01":
         v, rep = structural("c01", prop)
         return {"violations": v, "report": {"designated_fields": rep}}
